@@ -201,6 +201,11 @@ class PopSubject(Subject):
             :self._k(op), :n_cov]}
 
     def _k(self, op):
+        if '"H"' not in json.dumps(self.recipe['pop']):
+            # without a heterogeneous part the number of individuals the
+            # model was told is documented to be ignored: any number goes
+            return max(1, min(int(op.get('k', len(op['eta']))),
+                              len(op['eta'])))
         return min(getattr(self, 'cur_k', None) or len(op['eta']),
                    len(op['eta']))
 
@@ -882,6 +887,7 @@ def generate(rng, index, tier):
                 if kind == 'pop':
                     op['x'] = _vals(rng, 60)
                 op['eta'] = [_vals(rng, nd) for _ in range(ni)]
+                op['k'] = rng.randint(1, ni)
                 op['dlogp'] = [_vals(rng, nd, -1, 1) for _ in range(ni)]
                 # covariates usually belong to the individuals, not to the
                 # evaluation: mostly the same matrix for every evaluation
